@@ -48,8 +48,12 @@ FOR_SRC = {
     # then statements with an effect (must not run on the returned path)
     "N1": ["proc_nested(s, v)"],
     "N2": ["self.o <<= val_nested()"],
+    # helper whose for loop (no else clause) returns conditionally in its iterations, followed by code that runs when
+    # the loop falls through
+    "N3": ["proc_loop(s, v)"],
+    "N4": ["self.o <<= val_loop()"],
 }
-FRAGS = ("F1", "F2", "F3", "F4", "R1", "R2", "B1", "B2", "N1", "N2")
+FRAGS = ("F1", "F2", "F3", "F4", "R1", "R2", "B1", "B2", "N1", "N2", "N3", "N4")
 
 M2 = 3
 
@@ -265,6 +269,14 @@ class Ref:
                         sbits.clear()
                 elif k == "N2":
                     nxt["o"] = inp[0] if (inp[2] or not inp[1]) else 3
+                elif k == "N3":
+                    if inp[2] or inp[1]:
+                        st["v"] = (st["v"] + 1) & M2
+                    else:
+                        nxt["s"] = inp[0]
+                        sbits.clear()
+                elif k == "N4":
+                    nxt["o"] = 1 if inp[2] else 2 if inp[1] else inp[0]
                 elif k == "F4":
                     a = inp[0]
                     st["v"] = (st["v"] + bin(a).count("1")) & M2
@@ -333,6 +345,10 @@ def render(prog, reset=None, entity="T", locals_in_body=False, c04=False, on_res
           "        def nop():", "            pass",
           "        def proc_nested(sig, var):", "            if self.c:", "                var @= var + 1", "            else:",
           "                if self.b[0]:", "                    return", "            nop()", "            sig <<= self.a",
+          "        def proc_loop(sig, var):", "            for cnd in (self.c, self.b[0]):", "                if cnd:",
+          "                    var @= var + 1", "                    return", "            sig <<= self.a",
+          "        def val_loop():", "            for k, cnd in enumerate((self.c, self.b[0])):", "                if cnd:",
+          "                    nop()", "                    return Unsigned[2](k + 1)", "            return self.a",
           "        def val_nested():", "            if self.c:", "                pass", "            else:",
           "                if self.b[0]:", "                    return Unsigned[2](3)", "            nop()", "            return self.a",
           "        def pickbit():", "            if self.c:", "                return self.a[0]", "            return self.a[1]",
